@@ -111,6 +111,21 @@ CLAIMED.update({
   ref="DESIGN.md 4/C01"),
 })
 
+CLAIMED.update({
+ "C15": dict(
+  text="Deductive proof for the embedded-contract VM: the write buffer (vm/env.EnvImp) is exact against an abstract 'buffered balance' view "
+       "(getBalance/setBalance/addBalance/subBalance), Send cannot overspend, cannot move a negative amount, conserves the two balances and changes "
+       "nothing when refused; Reset empties every buffer and VmImpl.Run empties it before every deploy/call/terminate (call-site preconditions); Run "
+       "reports success iff the contract code returned no error, never reports more gas than the limit, and leaves every ledger balance, stake and "
+       "contract record untouched when the call failed or was a dry run. The last clause rests on a frame proof over the transitive write set of ALL "
+       "embedded contract code (class-hierarchy and callback resolution), one obligation per instruction that could write a ledger number in place: "
+       "two such instructions exist and are recorded as known findings (oracle-voting Terminate, replayed through the real vm.Run).",
+  note="Trusted: StateDB object cache (A-cache), math/big and decimal models, stats collectors observe only, context getters are functions of the "
+       "transaction, closed world for interface and function-value calls. Not decided: EnvImp.Commit applies exactly the buffer (map iteration), the WASM VM "
+       "(cgo), fee/gas pricing in applyTxOnState (getGasLimit), contract method bodies' own logic.",
+  ref="DESIGN.md 4/C15, 9"),
+})
+
 PENDING = {
 }
 
